@@ -757,55 +757,58 @@ def _fun(pairs, empty="<<>>"):
     return " @@\n    ".join("(%s :> %s)" % (_s(k), v) for k, v in pairs)
 
 
-def to_tla(data, name, entry_sets, trace=False):
-    """The generated data module: EXTENDS Imports and defines D_* operators substituted for its constants.
+def _body_of(spec_path):
+    """Text of a spec module between its @@BODY marker and the closing ==== line."""
+    with open(spec_path) as f:
+        text = f.read()
+    k = text.index("@@BODY")
+    k = text.index("\n", k) + 1
+    e = text.rindex("\n====")
+    return text[k:e] + "\n"
+
+
+def to_tla(data, name, entry_sets, trace=False, specdir=None):
+    """The generated model: the data constants of spec/Imports.tla as definitions extracted from the tree,
+    followed by the body of Imports.tla (and of Trace_Imports.tla).
 
     *entry_sets*: {operator name: list of entry lists}."""
+    specdir = specdir or os.path.join(os.path.dirname(os.path.dirname(os.path.abspath(__file__))), "spec")
     mods = data["modules"]
     L = []
     L.append("---- MODULE %s ----" % name)
     L.append("\\* generated by lenaverif/extract_imports.py from the tree under test - do not edit")
-    L.append("EXTENDS Naturals, Sequences, FiniteSets, TLC")
-    L.append("CONSTANTS EntryLists, ChainCalls")
-    L.append("VARIABLES entries, ms, g, stack, order, phase, cur, fail" + (", i" if trace else ""))
-    L.append("D_Modules == %s" % _set(mods))
-    L.append("D_IsPkg == %s" % _fun((m, "TRUE" if data["ispkg"][m] else "FALSE") for m in mods))
-    L.append("D_Parent == %s" % _fun((m, _s(data["parent"][m])) for m in mods))
-    L.append("D_Leaf == %s" % _fun((m, _s(data["leaf"][m])) for m in mods))
+    L.append("EXTENDS Naturals, Sequences, FiniteSets, TLC, Json" + (", IOUtils" if trace else ""))
+    L.append("Modules == %s" % _set(mods))
+    L.append("IsPkg == %s" % _fun((m, "TRUE" if data["ispkg"][m] else "FALSE") for m in mods))
+    L.append("Parent == %s" % _fun((m, _s(data["parent"][m])) for m in mods))
+    L.append("Leaf == %s" % _fun((m, _s(data["leaf"][m])) for m in mods))
     for k, m in enumerate(mods):
         L.append("D_Body_%d == <<%s>>" % (k, ",\n    ".join(_stmt_tla(s) for s in data["body"][m])))
-    L.append("D_Body == %s" % _fun((m, "D_Body_%d" % k) for k, m in enumerate(mods)))
-    L.append("D_All == %s" % _fun((m, _set(data["all"][m])) for m in sorted(data["all"])))
-    L.append("D_DynDefs == %s" % _fun((m, _set(data["dyndefs"][m])) for m in mods))
+    L.append("Body == %s" % _fun((m, "D_Body_%d" % k) for k, m in enumerate(mods)))
+    L.append("All == %s" % _fun((m, _set(data["all"][m])) for m in sorted(data["all"])))
+    L.append("DynDefs == %s" % _fun((m, _set(data["dyndefs"][m])) for m in mods))
     funcs = data["funcs"]
-    L.append("D_Funcs == %s" % _set(f["id"] for f in funcs))
-    L.append("D_FMod == %s" % _fun((f["id"], _s(f["mod"])) for f in funcs))
-    L.append("D_FImports == %s" % _fun(
+    L.append("Funcs == %s" % _set(f["id"] for f in funcs))
+    L.append("FMod == %s" % _fun((f["id"], _s(f["mod"])) for f in funcs))
+    L.append("FImports == %s" % _fun(
         (f["id"], "<<%s>>" % ", ".join(_stmt_tla(s) for s in f["imports"])) for f in funcs))
-    L.append("D_FLoads == %s" % _fun(
+    L.append("FLoads == %s" % _fun(
         (f["id"], "{%s}" % ", ".join("[name |-> %s, line |-> %d]" % (_s(l["name"]), l["line"]) for l in f["loads"]))
         for f in funcs))
-    L.append("D_FChains == %s" % _fun(
+    L.append("FChains == %s" % _fun(
         (f["id"], "{%s}" % ", ".join("[root |-> %s, rv |-> %s, links |-> %s, line |-> %d]" % (
             _s(c["root"]), _s(c["rv"]), _seq(c["links"]), c["line"]) for c in f["chains"]))
         for f in funcs))
-    L.append("D_Builtins == %s" % _set(data["builtins"]))
-    L.append("D_Implicit == %s" % _set(data["implicit"]))
-    L.append("D_PkgImplicit == %s" % _set(data["pkgimplicit"]))
+    L.append("Builtins == %s" % _set(data["builtins"]))
+    L.append("Implicit == %s" % _set(data["implicit"]))
+    L.append("PkgImplicit == %s" % _set(data["pkgimplicit"]))
     for op, lists in sorted(entry_sets.items()):
         L.append("%s == {%s}" % (op, ", ".join(_seq(e) for e in lists)))
-    # INSTANCE (not cfg substitution): TLC evaluates the D_* definitions once and caches the values
-    L.append("INSTANCE " + ("Trace_Imports" if trace else "Imports") + " WITH Modules <- D_Modules, IsPkg <- D_IsPkg, Parent <- D_Parent, Leaf <- D_Leaf, "
-             "Body <- D_Body, All <- D_All, DynDefs <- D_DynDefs, Funcs <- D_Funcs, FMod <- D_FMod, "
-             "FImports <- D_FImports, FLoads <- D_FLoads, FChains <- D_FChains, Builtins <- D_Builtins, "
-             "Implicit <- D_Implicit, PkgImplicit <- D_PkgImplicit")
-    # spelled out here so that TLC's coverage names the actions (an instantiated Next is one anonymous action)
-    L.append("NextD == \\/ LoadModule \\/ BindImport \\/ BindFrom \\/ StarImport \\/ ImportFails \\/ DefName \\/ DelName")
-    L.append("         \\/ UseName \\/ UseFails \\/ EndModule \\/ EndUser \\/ EndCall \\/ \\E f \\in D_Funcs : Call(f)")
-    L.append("SpecD == Init /\\ [][NextD]_vars")
+    L.append("\\* ---- spec/Imports.tla from its @@BODY marker on ----")
+    L.append(_body_of(os.path.join(specdir, "Imports.tla")))
     if trace:
-        L.append("TNextD == TStart \\/ TEnd \\/ TFail \\/ TReady \\/ TSilent \\/ TRestart")
-        L.append("TSpecD == TInit /\\ [][TNextD]_tvars")
+        L.append("\\* ---- spec/Trace_Imports.tla from its @@BODY marker on ----")
+        L.append(_body_of(os.path.join(specdir, "Trace_Imports.tla")))
     L.append("====")
     return "\n".join(L) + "\n"
 
